@@ -211,6 +211,10 @@ class Interp:
     def op_delete(self, op) -> None:
         self.mesh.delete(self.env[op["target"]])
 
+    def op_delete_sub(self, op) -> None:
+        """delete one operation of a multi-operation entity (shape)"""
+        self.mesh.delete(self.env[op["target"]].operations[op["index"]])
+
     def op_merge(self, op) -> None:
         self.mesh.merge_patches(op["master"], op["slave"])
 
